@@ -2069,8 +2069,11 @@ Error BaseRAPass::_mark_stack_args_to_keep() noexcept {
 
       // NOTE: Update StackOffset here so when `_args_assignment.update_func_frame()` is called it will take into
       // consideration moving to stack slots. Without this we may miss some scratch registers later.
+      // The home slot holds the virtual register, so the destination has its type - an argument of a narrower type
+      // (int16_t argument assigned to a 32-bit register) has to be extended when it's moved there.
       FuncValue& dst_arg = _args_assignment.arg(work_reg->arg_index(), work_reg->arg_value_index());
       dst_arg.assign_stack_offset(0);
+      dst_arg.set_type_id(work_reg->type_id());
     }
   }
 
